@@ -114,7 +114,7 @@ def run(chk):
                     sg["top truncation"] = [-float(round(rng.uniform(5e4, 1.5e5)))]
         f["temperature models"] = [m]
         f["composition models"] = [{"model": "uniform", "compositions": [0]}]
-        slot = cs.add_world(wj, model=False)
+        slot = cs.add_world(wj)          # modelled: SlabMass.v / SlabFeature.v, compared bit for bit
         for qi in range(30):
             q, d = line_query(rng, wj, False, f, spread=rng.choice([0.2, 0.5]))
             if d >= 0:
